@@ -490,12 +490,18 @@ impl<'a, 'tcx> W<'a, 'tcx> {
                 hir::StmtKind::Item(_) => stmts.push(J::obj(vec![("k", J::s("Item"))])),
             }
         }
-        J::obj(vec![
+        let user_unsafe = matches!(b.rules, hir::BlockCheckMode::UnsafeBlock(hir::UnsafeSource::UserProvided))
+            && !b.span.from_expansion();
+        let mut f = vec![
             ("k", J::s("Block")),
             ("stmts", J::Arr(stmts)),
             ("e", b.expr.map(|e| self.expr(e)).unwrap_or(J::Null)),
             ("sp", J::s(&self.cx.span(b.span))),
-        ])
+        ];
+        if user_unsafe {
+            f.push(("unsafe", J::Bool(true)));
+        }
+        J::obj(f)
     }
 
     fn is_lang_call(&self, e: &hir::Expr<'tcx>, item: hir::LangItem) -> Option<&'tcx [hir::Expr<'tcx>]> {
